@@ -54,12 +54,22 @@ func c06(p Params) func() {
 	maxLen := p.Int("len", 4)
 	limit := uint32(p.Int("limit", 1024))
 	pending := p.Get("pending", "0") == "1"
+	// detail=1: the attacked peer logs every message in detail (PrintDetail, run log enabled) and serves unknown
+	// routes through unknown-call/unknown-push handlers (raw byte bodies): the logging path sees the hostile bytes too
+	detail := p.Get("detail", "0") == "1"
 	return func() {
 		begin()
 		vsched.Tag("proto=" + proto + " class=" + class)
 		socket.SetMessageSizeLimit(limit)
 		pf := world.Proto(proto)
 		srv := world.NewPeer("json")
+		if detail {
+			erpc.SetLoggerLevel2(erpc.DEBUG) // the harness's outputter discards everything below CRITICAL
+			defer erpc.SetLoggerLevel2(erpc.CRITICAL)
+			srv = erpc.NewPeer(erpc.PeerConfig{DefaultBodyCodec: "json", PrintDetail: true, CountTime: true})
+			srv.SetUnknownCall(func(ctx erpc.UnknownCallCtx) (interface{}, *erpc.Status) { return ctx.InputBodyBytes(), nil })
+			srv.SetUnknownPush(func(ctx erpc.UnknownPushCtx) *erpc.Status { return nil })
+		}
 		handled := 0
 		hc := srv.RouteCallFunc(func(ctx erpc.CallCtx, a *string) (*string, *erpc.Status) { handled++; return a, nil })
 		srv.RoutePushFunc(func(ctx erpc.PushCtx, a *string) *erpc.Status { handled++; return nil })
@@ -79,6 +89,9 @@ func c06(p Params) func() {
 			vsched.Quiesce()
 		}
 		frames := validFrames(proto, hc)
+		if detail {
+			frames = append(validFrames(proto, "/no/such/route"), frames[:1]...)
+		}
 		var input []byte
 		desc := ""
 		oversize := false
@@ -96,7 +109,7 @@ func c06(p Params) func() {
 		case "subst":
 			f := frames[vsched.Choose(len(frames), "frame")]
 			off := vsched.Choose(len(f), "offset")
-			vals := []byte{0x00, 0x01, 0x7f, 0x80, 0xff, f[off] ^ 1, f[off] ^ 0x80}
+			vals := []byte{0x00, 0x01, 0x7f, 0x80, 0xff, f[off] ^ 1, f[off] ^ 0x80, 0xe2, 0xc3}
 			input = append([]byte{}, f...)
 			input[off] = vals[vsched.Choose(len(vals), "value")]
 		case "length":
